@@ -57,8 +57,22 @@ static void ep4_mul_sim_plain(ep4_t r, const ep4_t p, const bn_t k,
 	ep4_t t0[1 << (RLC_WIDTH - 2)];
 	ep4_t t1[1 << (RLC_WIDTH - 2)];
 	size_t l, l0, l1;
+	bn_t ord, kr, mr;
+
+	bn_null(ord);
+	bn_null(kr);
+	bn_null(mr);
 
 	RLC_TRY {
+		bn_new(ord);
+		bn_new(kr);
+		bn_new(mr);
+
+		/* The recoding buffers only cover twice the field size. */
+		ep4_curve_get_ord(ord);
+		bn_mod(kr, k, ord);
+		bn_mod(mr, m, ord);
+
 		gen = (t == NULL ? 0 : 1);
 		if (!gen) {
 			for (i = 0; i < (1 << (RLC_WIDTH - 2)); i++) {
@@ -84,18 +98,18 @@ static void ep4_mul_sim_plain(ep4_t r, const ep4_t p, const bn_t k,
 			w = RLC_WIDTH;
 		}
 		l0 = l1 = 2 * RLC_FP_BITS + 1;
-		bn_rec_naf(naf0, &l0, k, w);
-		bn_rec_naf(naf1, &l1, m, RLC_WIDTH);
+		bn_rec_naf(naf0, &l0, kr, w);
+		bn_rec_naf(naf1, &l1, mr, RLC_WIDTH);
 
 		l = RLC_MAX(l0, l1);
 		_k = naf0 + l - 1;
 		_m = naf1 + l - 1;
-		if (bn_sign(k) == RLC_NEG) {
+		if (bn_sign(kr) == RLC_NEG) {
 			for (i =  0; i < l0; i++) {
 				naf0[i] = -naf0[i];
 			}
 		}
-		if (bn_sign(m) == RLC_NEG) {
+		if (bn_sign(mr) == RLC_NEG) {
 			for (i =  0; i < l1; i++) {
 				naf1[i] = -naf1[i];
 			}
@@ -127,6 +141,9 @@ static void ep4_mul_sim_plain(ep4_t r, const ep4_t p, const bn_t k,
 		RLC_THROW(ERR_CAUGHT);
 	}
 	RLC_FINALLY {
+		bn_free(ord);
+		bn_free(kr);
+		bn_free(mr);
 		/* Free the precomputation tables. */
 		if (!gen) {
 			for (i = 0; i < (1 << (RLC_WIDTH - 2)); i++) {
@@ -397,6 +414,11 @@ void ep4_mul_sim_dig(ep4_t r, const ep4_t p[], const dig_t k[], size_t len) {
 
 	ep4_null(t);
 
+	if (len == 0) {
+		ep4_set_infty(r);
+		return;
+	}
+
 	max = util_bits_dig(k[0]);
 	for (int i = 1; i < len; i++) {
 		max = RLC_MAX(max, util_bits_dig(k[i]));
@@ -466,7 +488,12 @@ void ep4_mul_sim_lot(ep4_t r, const ep4_t p[], const bn_t k[], size_t n) {
 
 			l = 0;
 			for (i = 0; i < n; i++) {
-				bn_rec_frb(_k, 8, k[i], q, x, ep_curve_is_pairf() == EP_BN);
+				/* Reduce the scalar; the other sub-scalars stay zero (no
+				 * endomorphism decomposition is applied here). */
+				bn_mod(_k[0], k[i], q);
+				for (j = 1; j < 8; j++) {
+					bn_zero(_k[j]);
+				}
 				for (j = 0; j < 8; j++) {
 					_l[8*i + j] = len;
 					bn_rec_naf(&naf[(8*i + j)*len], &_l[8*i + j], _k[j], 2);
@@ -541,7 +568,12 @@ void ep4_mul_sim_lot(ep4_t r, const ep4_t p[], const bn_t k[], size_t n) {
 
 			l = 0;
 			for (i = 0; i < n; i++) {
-				bn_rec_frb(_k, 8, k[i], q, x, ep_curve_is_pairf() == EP_BN);
+				/* Reduce the scalar; the other sub-scalars stay zero (no
+				 * endomorphism decomposition is applied here). */
+				bn_mod(_k[0], k[i], q);
+				for (j = 1; j < 8; j++) {
+					bn_zero(_k[j]);
+				}
 				for (j = 0; j < 8; j++) {
 					_l[8*i + j] = len;
 					bn_rec_naf(&naf[(8*i + j)*len], &_l[8*i + j], _k[j], w);
